@@ -204,6 +204,11 @@ theorem TCons.setTcp_same_slots {n : NetSt} {a : String} {s s' : TcpSock} (h : n
   TCons.setTcp_present h (fun hx => ⟨by rw [tcp_slotIds_congr h1 h2 h3 h4 h5]; simp,
     by unfold TcpSock.recvExcl at *; rw [h1, h2]; exact hx⟩)
 
+/-- the effect list may be reordered -/
+theorem TCons.congr_perm {n n' : NetSt} {e e' : List NEff} {new new' : List Nat} (h : TCons n n' e new)
+    (he : (effIds e').Perm (effIds e)) (hn : new'.Perm new) : TCons n n' e' new' :=
+  ⟨h.wf, fun hw z => by rw [he.count_eq z, hn.count_eq z]; exact h.cnt hw z⟩
+
 /-- goal-directed form: first a slot-neutral update of object `a`, then the rest -/
 theorem TCons.setTcp_then {n n2 : NetSt} {a : String} {s s' : TcpSock} {effs : List NEff} {new : List Nat}
     (h : n.tcp? a = some s) (hrest : TCons (n.setTcp a s') n2 effs new)
